@@ -763,6 +763,10 @@ def _serve_socket_threaded(
     state_lock = threading.Lock()
     conn_count = 0
     timer: threading.Timer | None = None
+    # Bumped whenever the timer is (re)armed or cancelled, so a callback that
+    # was already past Timer's own "cancelled?" check when it was superseded
+    # can tell that it is stale.
+    timer_generation = 0
     shutdown_requested = False
 
     # Linux does not wake a blocked accept() when another thread closes the
@@ -770,24 +774,30 @@ def _serve_socket_threaded(
     # Drive accept on a short timeout and check a shutdown flag instead.
     sock.settimeout(0.5)
 
-    def _close_listener_if_idle() -> None:
+    def _close_listener_if_idle(generation: int) -> None:
         nonlocal timer, shutdown_requested
         with state_lock:
+            if generation != timer_generation:
+                # Cancelled or replaced after it had started to fire: the idle
+                # period it measured is over (a connection came and went).
+                return
             timer = None
             if conn_count != 0:
                 return
             shutdown_requested = True
 
     def _arm_timer_locked(seconds: float) -> None:
-        nonlocal timer
+        nonlocal timer, timer_generation
         if timer is not None:
             timer.cancel()
-        timer = threading.Timer(seconds, _close_listener_if_idle)
+        timer_generation += 1
+        timer = threading.Timer(seconds, _close_listener_if_idle, args=(timer_generation,))
         timer.daemon = True
         timer.start()
 
     def _cancel_timer_locked() -> None:
-        nonlocal timer
+        nonlocal timer, timer_generation
+        timer_generation += 1
         if timer is not None:
             timer.cancel()
             timer = None
@@ -830,6 +840,10 @@ def _serve_socket_threaded(
             with state_lock:
                 conn_count += 1
                 _cancel_timer_locked()
+                # An idle shutdown decided before this connection arrived is
+                # void: the loop must not stop while (or right after) serving
+                # a connection it accepted.
+                shutdown_requested = False
             t = threading.Thread(
                 target=_handle,
                 args=(conn,),
